@@ -17,14 +17,14 @@ GVals == {0, 1, 0 - 2, NaN, PInf, NInf}
 AlphaGauge == {Op(h, op, "f64", a, 0, 0) : h \in {1, 2, 3}, op \in {"inc", "dec", "set"}, a \in GVals}
                 \cup {Op(1, "inc", "dur", 1, 1, 0), Op(2, "dec", "u8", 3, 0, 0), Op(1, "set", "i8", 0 - 2, 0, 0)}
 \* FineCas: fewer values (the state carries the loaded value and the operation in flight per thread)
-AlphaGaugeCas == {Op(h, op, "f64", a, 0, 0) : h \in {1, 2}, op \in {"inc", "dec", "set"}, a \in {1, 0 - 2, PInf, NInf}}
-                   \cup {Op(3, "inc", "f64", 1, 0, 0)}
+AlphaGaugeCas == {Op(1, op, "f64", a, 0, 0) : op \in {"inc", "dec"}, a \in {1, 0 - 2, PInf}}
+                   \cup {Op(2, "set", "f64", 5, 0, 0), Op(2, "inc", "f64", NInf, 0, 0), Op(3, "inc", "f64", 1, 0, 0)}
 
 \* ---- histogram: 1 = default record_many (loop) on storage 1, 2 = clone, 3 = overriding storage 2, 4 = noop
 HTHist == (1 :> H("hist", 1, "loop")) @@ (2 :> H("hist", 1, "loop")) @@ (3 :> H("hist", 2, "many")) @@ (4 :> H("hist", 0, "-"))
-AlphaHist == {Op(h, "rec", "f64", a, 0, 1) : h \in {1, 2, 3, 4}, a \in {0, 1, NaN}}
-               \cup {Op(h, "many", "f64", a, 0, n) : h \in {1, 2, 3, 4}, a \in {1, PInf}, n \in {0, 1, 2, 3}}
-               \cup {Op(3, "many", "dur", 1, 2, BigN), Op(1, "rec", "u16", 65535, 0, 1)}
+AlphaHist == {Op(h, "rec", "f64", a, 0, 1) : h \in {1, 2, 3, 4}, a \in {1, NaN}}
+               \cup {Op(h, "many", "f64", 1, 0, n) : h \in {1, 2, 3, 4}, n \in {0, 2}}
+               \cup {Op(3, "many", "dur", 0, 3, BigN), Op(1, "many", "u16", 65535, 0, 3), Op(3, "many", "f64", PInf, 0, 1)}
 
 \* ---- all kinds together (independence of the storages)
 HTMixed == (1 :> H("counter", 1, "-")) @@ (2 :> H("counter", 2, "-")) @@ (3 :> H("gauge", 3, "-")) @@ (4 :> H("gauge", 4, "-"))
@@ -32,4 +32,21 @@ HTMixed == (1 :> H("counter", 1, "-")) @@ (2 :> H("counter", 2, "-")) @@ (3 :> H
 AlphaMixed == {Op(h, op, "u64", a, 0, 0) : h \in {1, 2, 6}, op \in {"inc", "abs"}, a \in {1, 15}}
                 \cup {Op(h, op, "f64", a, 0, 0) : h \in {3, 4, 7}, op \in {"inc", "set"}, a \in {1, NInf}}
                 \cup {Op(h, "many", "f64", 1, 0, 2) : h \in {5, 8}}
+
+\* ---- conformance world (trace validation, replay)
+\* the world built by harness/src/bin/c04.rs (fn World::new)
+WorldHT ==
+  (1 :> H("counter", 1, "-")) @@     \* Counter::from_arc(Arc<AtomicU64>)
+  (2 :> H("counter", 1, "-")) @@     \* its clone
+  (3 :> H("counter", 0, "-")) @@     \* Counter::noop()
+  (4 :> H("counter", 2, "-")) @@     \* Counter::from(Arc<AtomicU64>) (From impl), second storage
+  (5 :> H("gauge", 3, "-")) @@       \* Gauge::from_arc(Arc<AtomicU64>)
+  (6 :> H("gauge", 3, "-")) @@       \* its clone
+  (7 :> H("gauge", 0, "-")) @@       \* Gauge::noop()
+  (8 :> H("gauge", 4, "-")) @@       \* Gauge::from(Arc<AtomicU64>)
+  (9 :> H("hist", 5, "loop")) @@     \* Histogram::from_arc(probe with the default record_many)
+  (10 :> H("hist", 5, "loop")) @@    \* its clone
+  (11 :> H("hist", 6, "many")) @@    \* probe overriding record_many
+  (12 :> H("hist", 0, "-")) @@       \* Histogram::noop()
+  (13 :> H("hist", 7, "loop"))       \* Histogram::from_arc(Arc<Arc<overriding probe>>): `impl HistogramFn for Arc<T>` forwards record only
 =============================================================================
